@@ -454,3 +454,34 @@ func TopFrame(g string) string {
 	}
 	return "?"
 }
+
+// CountGoroutines returns the number of goroutines whose stack contains all substrings.
+func CountGoroutines(subs ...string) int {
+	buf := make([]byte, 1<<22)
+	n := runtime.Stack(buf, true)
+	c := 0
+outer:
+	for _, g := range strings.Split(string(buf[:n]), "\n\n") {
+		for _, s := range subs {
+			if !strings.Contains(g, s) {
+				continue outer
+			}
+		}
+		c++
+	}
+	return c
+}
+
+// WaitGoroutines polls until CountGoroutines(subs...) >= n.
+func WaitGoroutines(n int, d time.Duration, subs ...string) bool {
+	deadline := time.Now().Add(d)
+	for {
+		if CountGoroutines(subs...) >= n {
+			return true
+		}
+		if time.Now().After(deadline) {
+			return false
+		}
+		time.Sleep(200 * time.Microsecond)
+	}
+}
